@@ -212,7 +212,7 @@ def _realize_args(args: Sequence[Any]) -> List[int]:
     return [int(deep_realize(a)) for a in args]
 
 
-def _assume_bounds(args: Sequence[Any], specs: Sequence[Arg]) -> None:
+def _assume_bounds(args: Sequence[Any], specs: Sequence[Arg]) -> bool:
     """The stated bound as a solver assumption (no forking: a `pre:` would split 3 ways per argument)."""
     from crosshair.statespace import context_statespace
     from crosshair.tracers import NoTracing
@@ -225,7 +225,8 @@ def _assume_bounds(args: Sequence[Any], specs: Sequence[Arg]) -> None:
             if isinstance(a, SymbolicInt):
                 space.add(z3.And(a.var >= s.lo, a.var <= s.hi))
             elif not (s.lo <= a <= s.hi):
-                raise AssertionError("concrete argument outside its bound")
+                return False
+    return True
 
 
 def make_wrapper(job: Job, stats: Stats) -> Callable[..., None]:
@@ -234,7 +235,8 @@ def make_wrapper(job: Job, stats: Stats) -> Callable[..., None]:
 
     def w(*args):
         assert args is not None  # (asserts-mode needs a leading assert; the bound is assumed below)
-        _assume_bounds(args, specs)
+        if not _assume_bounds(args, specs):
+            return  # CrossHair occasionally probes with concrete values; outside the bound = nothing to check
         stats.paths += 1
         CTX.reached = False
         try:
